@@ -6,9 +6,9 @@ ran.  Statements only; lemmas live in `IsoVerif.Lemmas.Pico*`.
 
 `C02_statement` (every execution is justified by a first run, a collection, or a changed DIRECT
 semantic dependency — which contains the clauses "equal-value writes", "unrelated writes" and
-"backdating") is FALSE of today's code: F22, witness below, replayed on the real crate.  F3 (equal
-write re-stamps the source) was repaired in /repo b7bfe5c; `C02_equal_write_noop` is the theorem
-about the repaired code.
+"backdating") is not known to fail any more: F3 (equal write re-stamps the source, /repo b7bfe5c)
+and F22 (dependencies registered during verification) were repaired and the model follows the
+repaired code.  It is not proved in general; what is proved is listed under "what is proved".
 -/
 import IsoVerif.Lemmas.Pico
 
@@ -68,7 +68,7 @@ instance (fuel cap P h) : Decidable (C02_statement_at fuel cap P h) := by
 /-- **C02 at full strength** -/
 def C02_statement : Prop := ∀ fuel cap P h, C02_statement_at fuel cap P h
 
-/-! ### witness (known finding F22) -/
+/-! ### the former witness of F22 -/
 
 def progF22 : Prog :=
   [⟨0, .call 1 .param⟩, ⟨0, .eq (.add (.call 2 .param) (.call 3 .param)) (.lit 9)⟩, ⟨0, .src .param⟩, ⟨2, .src (.lit 2)⟩]
@@ -76,13 +76,12 @@ def progF22 : Prog :=
 def histF22 : List Op :=
   [.set 0 1, .set 2 1, .set 3 0, .call 1 0, .set 3 1, .call 0 0, .set 0 2, .call 0 0]
 
-/-- F22: `t` (function 0) re-executes in the last call although its only direct dependency
-`g` (function 1) kept its value: the nodes verified while `g` was being verified inside `t`'s body
-had been registered as dependencies of `t`. -/
-theorem C02_witness_spurious_dep : ¬ C02_statement_at 8 10 progF22 histF22 := by
+/-- F22 (repaired, /repo): `t` (function 0) used to re-execute in the last call although its only
+direct dependency `g` (function 1) kept its value — the nodes verified while `g` was being verified
+inside `t`'s body had been registered as dependencies of `t`.  On the repaired code the former
+witness history satisfies the statement. -/
+example : C02_statement_at 8 10 progF22 histF22 := by
   decide +kernel
-
-theorem C02_statement_false : ¬ C02_statement := fun H => C02_witness_spurious_dep (H 8 10 _ _)
 
 /-- the same history without the detour (calling `t` first) satisfies the statement: the witness
 is about the registration during verification, not about the program. -/
